@@ -14,7 +14,7 @@ Task: make ONE small, realistic change to the library source under {d}/src that 
 Steps:
 1. Read the relevant code and pick the change. Prefer a subtle one that the existing tests (tests/*.rs and the unit tests in src) do not exercise.
 2. Apply it. Run the whole existing suite: `cd {d} && CARGO_TARGET_DIR={d}/target cargo test --offline -j 6 2>&1 | grep -E "^test result|FAILED|panicked|error"` (this takes a few minutes the first time). EVERY test must still pass. If one fails, choose a different change.
-3. Write a demonstration as an integration test file {d}/tests/seed_demo.rs that uses only the public API, FAILS with your change and PASSES on the original code. Verify both: run it with your change (must fail), then `git -C {d} stash push -- src` , run it again (must pass), then `git -C {d} stash pop`.
+3. Write a demonstration as an integration test file {d}/tests/seed_demo.rs that uses only the public API, FAILS with your change and PASSES on the original code. Verify both: run it with your change (must fail); then save your change with `git -C {d} diff -- src > {d}/my_change.diff` and remove it with `git -C {d} checkout -- src`, run the demo again (must pass), then restore the change with `git -C {d} apply {d}/my_change.diff`. Do NOT use `git stash`: the stash is shared with other worktrees of the same repository that other people are using at the same time.
 4. Create the directory {d}/seed and write into it: `patch.diff` = output of `git -C {d} diff -- src` (only the library change, not the demo); `demo.rs` = a copy of tests/seed_demo.rs; `meta.json` with the keys: "property" ("{pid}"), "summary" (what was changed and why it breaks the property), "needs" (the specific condition required for it to manifest), "files" (list), "demo_cmd", "how_verified" (what you ran and what you observed, including that the full existing suite passed with the change).
 5. Reply with a short summary (5-10 lines): the change, what it needs to manifest, and the verification results.
 """)
